@@ -1007,7 +1007,20 @@ class Node:
             # all peers
             waiting[(message.header.hop_by_hop_identifier,
                      message.header.end_to_end_identifier)] = time.time()
-            receiving_app.receive_request(message)
+            message_id = (message.header.hop_by_hop_identifier,
+                          message.header.end_to_end_identifier)
+            try:
+                receiving_app.receive_request(message)
+            except Exception as e:
+                if message_id in waiting:
+                    # not answered: let the caller send an error answer
+                    raise
+                # the application has answered the request already and
+                # failed afterwards; a request is answered only once
+                self.logger.error(
+                    f"{conn} application failed after answering request "
+                    f"{hex(message.header.hop_by_hop_identifier)}: {e}",
+                    exc_info=True)
             return
 
         self.logger.warning(
